@@ -225,3 +225,15 @@ Theorem C02_logic_mul_word_final_state_memory_destination :
       /\ (forall b, RAMB <= b -> (b < a \/ a + 4 <= b) -> ramb m' b = ramb m b).
 Proof. exact logic_mul_mem_word_final. Qed.
 Print Assumptions C02_logic_mul_word_final_state_memory_destination.
+
+(* logical shifts and rotate, word size, register destination: LLSW3 (208) shifts left by count mod 32 and truncates
+   to 32 bits, LRSW3 (212) shifts right, ROTW (216) rotates right; N, Z from the result, C = V = 0 *)
+Theorem C02_shift_rotate_word_final_state :
+  forall ir m cnt v r res,
+    shift_result (iopcode ir) cnt v = Some res ->
+    read_op ir 0 m = Ok cnt m -> read_op ir 1 m = Ok v m ->
+    omode (get_op ir 2) = MRegister -> oreg (get_op ir 2) = Some r -> 0 <= r <= 10 -> otype (get_op ir 2) = DWord ->
+    exists m', exec ir m = Ok (ilen ir) m'
+      /\ word_outcome m m' r res (Z.testbit res 31) (res =? 0) false false.
+Proof. exact shift_word_final. Qed.
+Print Assumptions C02_shift_rotate_word_final_state.
